@@ -111,10 +111,17 @@ class ChangeField(BaseModelFieldMutation):
         if self.field_type is not None:
             field_sig.field_type = self.field_type
 
+        new_field_attrs = self.field_attrs.copy()
+
+        if 'related_model' in new_field_attrs:
+            # This isn't a real field attribute. It's the target of a
+            # relation, which the signature tracks separately.
+            field_sig.related_model = new_field_attrs.pop('related_model')
+
         if field_type_changed:
-            field_sig.field_attrs = self.field_attrs.copy()
+            field_sig.field_attrs = new_field_attrs
         else:
-            field_sig.field_attrs.update(self.field_attrs)
+            field_sig.field_attrs.update(new_field_attrs)
 
         if ('null' in self.field_attrs and not self.field_attrs['null'] and
             not issubclass(field_sig.field_type, models.ManyToManyField) and
